@@ -367,8 +367,29 @@ def install ():
             return w
         setattr (M, name, mk (orig, name))
     start_tracer ()
+    start_fp_recorder ()
     return True
 # end def install
+
+def start_fp_recorder ():
+    """ floating-point 'sanitizer': numpy calls back on invalid / divide / overflow; the innermost
+        repository function on the stack is recorded (EVENTS 'fp:<kind>@<function>'). Observability
+        only - whether a non-finite value reaches an observable is decided by the property monitors.
+    """
+    prefix = os.path.join (common.REPO, 'mininec') + os.sep
+    def handler (kind, flag):
+        f = sys._getframe (1)
+        depth = 0
+        while f is not None and depth < 40:
+            if f.f_code.co_filename.startswith (prefix):
+                EVENTS ['fp:%s@%s' % (kind.split () [0], f.f_code.co_name)] += 1
+                return
+            f = f.f_back
+            depth += 1
+        EVENTS ['fp:%s@outside-repository' % kind.split () [0]] += 1
+    np.seterrcall (handler)
+    np.seterr (divide = 'call', over = 'call', invalid = 'call', under = 'ignore')
+# end def start_fp_recorder
 
 # -------------------------------------------------------------- anchor tracer
 
